@@ -248,7 +248,7 @@ PROPS = {
 
 PROPS["C04"] = dict(
     gen=True,
-    modules=["HT.Props.C04", "HT.Props.C04Http", "HT.Props.C04Redis", "HT.Props.C04HttpOnce", "HT.Props.GenC04"],
+    modules=["HT.Props.C04", "HT.Props.C04Http", "HT.Props.C04Redis", "HT.Props.C04HttpOnce", "HT.Props.C04Ldap", "HT.Props.GenC04"],
     streams=["c04seg"],
     rule="services configured on a real Honeytrap (real Run(): construction, port table, bus, filter -> capture channel), "
          "connections handed to the real handle() (findService, timeout wrapper, recover) over a scripted connection whose "
@@ -260,7 +260,7 @@ PROPS["C04"] = dict(
          "decoder with the same segments (dns, snmp: oracle only); the one-request services elasticsearch, docker, eos, "
          "ethereum, cwmp (seg1: one generated request per connection, body sizes around the 1024-byte recording limit, every "
          "cut near the head/body boundary and a stride elsewhere, multi-cut, streams cut short) against the Lean one-request "
-         "machine, ipp and ldap message sequences as @req (oracle only); oracle: events equal those of the same bytes in one piece and the list computed from the commands "
+         "machine, ldap message sequences (seg ldap: bind, delete, compare, unbind; every single cut, one byte per read) against the Lean BER framing machine, ipp as @req (oracle only); oracle: events equal those of the same bytes in one piece and the list computed from the commands "
          "as generated; non-trivial = at least one event; distinct = distinct case line",
     trusted=COMMON_TB + ["verif hook server/verif_hooks.go (VerifNew, VerifHandle)",
                          "scripted in-memory connection instead of a kernel socket (segment = what one Read returns)",
